@@ -10,6 +10,7 @@ import (
 	"net/http"
 	"path"
 	"strconv"
+	"strings"
 	"sync"
 	"sync/atomic"
 	"time"
@@ -33,10 +34,19 @@ const (
 
 type cmafIngesterMgr struct {
 	nr        atomic.Uint64
+	mu        sync.Mutex // protects ingesters and cancels, which the API handlers read and write concurrently
 	ingesters map[uint64]*cmafIngester
 	state     ingesterState
 	s         *Server
 	cancels   map[uint64]context.CancelFunc
+}
+
+// getIngester returns the ingester with the given number and its cancel function (nil if not started).
+func (cm *cmafIngesterMgr) getIngester(nr uint64) (c *cmafIngester, cancel context.CancelFunc, ok bool) {
+	cm.mu.Lock()
+	defer cm.mu.Unlock()
+	c, ok = cm.ingesters[nr]
+	return c, cm.cancels[nr], ok
 }
 
 type cmafIngester struct {
@@ -57,8 +67,33 @@ type cmafIngester struct {
 	repsData       []cmafRepData
 	nextSegTrigger chan struct{}
 	done           chan struct{} // closed when the session loop has ended
+	mu             sync.Mutex    // protects state and report, written by the session goroutine and read by the API handlers
 	state          ingesterState
 	report         []string
+}
+
+func (c *cmafIngester) setState(s ingesterState) {
+	c.mu.Lock()
+	c.state = s
+	c.mu.Unlock()
+}
+
+func (c *cmafIngester) getState() ingesterState {
+	c.mu.Lock()
+	defer c.mu.Unlock()
+	return c.state
+}
+
+func (c *cmafIngester) addReport(msg string) {
+	c.mu.Lock()
+	c.report = append(c.report, msg)
+	c.mu.Unlock()
+}
+
+func (c *cmafIngester) getReport() string {
+	c.mu.Lock()
+	defer c.mu.Unlock()
+	return strings.Join(c.report, "\n")
 }
 
 func NewCmafIngesterMgr(s *Server) *cmafIngesterMgr {
@@ -75,8 +110,10 @@ func (cm *cmafIngesterMgr) Start() {
 }
 
 func (cm *cmafIngesterMgr) Close() {
+	cm.mu.Lock()
+	defer cm.mu.Unlock()
 	for i, cancel := range cm.cancels {
-		if cm.ingesters[i].state == ingesterStateRunning {
+		if cm.ingesters[i].getState() == ingesterStateRunning {
 			cancel()
 		}
 	}
@@ -190,20 +227,24 @@ func (cm *cmafIngesterMgr) NewCmafIngester(req CmafIngesterSetup) (nr uint64, er
 	if c.dur != nil {
 		c.nrSegsToSend = m.Ptr(*c.dur * 1000 / asset.SegmentDurMS)
 	}
+	cm.mu.Lock()
 	cm.ingesters[nr] = &c
+	cm.mu.Unlock()
 
 	return nr, nil
 }
 
 func (cm *cmafIngesterMgr) startIngester(nr uint64) {
-	c, ok := cm.ingesters[nr]
+	c, _, ok := cm.getIngester(nr)
 	if !ok {
 		return
 	}
 	var ctx context.Context
 	var cancel context.CancelFunc
 	ctx, cancel = context.WithCancel(context.Background())
+	cm.mu.Lock()
 	cm.cancels[nr] = cancel
+	cm.mu.Unlock()
 	go c.start(ctx)
 }
 
@@ -230,7 +271,7 @@ type cmafRepData struct {
 func (c *cmafIngester) start(ctx context.Context) {
 
 	defer func() {
-		c.state = ingesterStateStopped
+		c.setState(ingesterStateStopped)
 		close(c.done)
 	}()
 
@@ -246,7 +287,7 @@ func (c *cmafIngester) start(ctx context.Context) {
 		if ok {
 			if err != nil {
 				msg := fmt.Sprintf("error matching time subs init lang: %v", err)
-				c.report = append(c.report, msg)
+				c.addReport(msg)
 				c.log.Error(msg)
 				return
 			}
@@ -256,7 +297,7 @@ func (c *cmafIngester) start(ctx context.Context) {
 			err := init.EncodeSW(sw)
 			if err != nil {
 				msg := fmt.Sprintf("Error encoding init segment: %v", err)
-				c.report = append(c.report, msg)
+				c.addReport(msg)
 				c.log.Error(msg)
 				return
 			}
@@ -265,19 +306,19 @@ func (c *cmafIngester) start(ctx context.Context) {
 			match, err := matchInit(rd.initPath, c.cfg, c.mgr.s.Cfg.DrmCfg, c.asset)
 			if err != nil {
 				msg := fmt.Sprintf("Error matching init segment: %v", err)
-				c.report = append(c.report, msg)
+				c.addReport(msg)
 				c.log.Error(msg)
 			}
 			if !match.isInit {
 				msg := fmt.Sprintf("Error matching init segment: %v", err)
-				c.report = append(c.report, msg)
+				c.addReport(msg)
 				c.log.Error(msg)
 			}
 			contentType = match.rep.SegmentType()
 			initBin, err = setRawInitProps(match.init, rd, startTimeS)
 			if err != nil {
 				msg := fmt.Sprintf("Error setting init times: %v", err)
-				c.report = append(c.report, msg)
+				c.addReport(msg)
 				c.log.Error(msg)
 			}
 		}
@@ -285,17 +326,17 @@ func (c *cmafIngester) start(ctx context.Context) {
 		err = c.sendInitSegment(ctx, rd, initBin)
 		if err != nil {
 			msg := fmt.Sprintf("error uploading init segment: %v", err)
-			c.report = append(c.report, msg)
+			c.addReport(msg)
 			c.log.Error(msg)
 			nrInitErrors++
 		} else {
 			c.log.Info("Sent init segment", "path", rd.initPath, "contentType", contentType, "size", len(initBin))
-			c.report = append(c.report, fmt.Sprintf("Sent init segment %s", rd.initPath))
+			c.addReport(fmt.Sprintf("Sent init segment %s", rd.initPath))
 		}
 	}
 	if nrInitErrors > 0 {
 		msg := fmt.Sprintf("Number of init errors: %d", nrInitErrors)
-		c.report = append(c.report, msg)
+		c.addReport(msg)
 		c.log.Error("could not upload init segments", "nrErrors", nrInitErrors)
 		return
 	}
@@ -307,7 +348,7 @@ func (c *cmafIngester) start(ctx context.Context) {
 	} else {
 		nowMS = int(time.Now().UnixNano() / 1e6)
 	}
-	c.state = ingesterStateRunning
+	c.setState(ingesterStateRunning)
 
 	refRep := c.asset.refRep
 	lastNr := findLastSegNr(c.cfg, c.asset, nowMS, refRep) // Counted from 0. Less than 0 if no segment has ended yet
@@ -319,7 +360,7 @@ func (c *cmafIngester) start(ctx context.Context) {
 
 	if c.nrSegsToSend != nil {
 		if *c.nrSegsToSend <= 0 {
-			c.report = append(c.report, "Duration shorter than one segment. Nothing to send")
+			c.addReport("Duration shorter than one segment. Nothing to send")
 			return
 		}
 		lastSegNrToSend = nextSegNr + *c.nrSegsToSend - 1 // nrSegsToSend segments starting with nextSegNr
@@ -331,7 +372,7 @@ func (c *cmafIngester) start(ctx context.Context) {
 	availabilityTime, err := calcSegmentAvailabilityTime(c.asset, refRep, uint32(nextSegNr), c.cfg)
 	if err != nil {
 		msg := fmt.Sprintf("Error calculating segment availability time: %v", err)
-		c.report = append(c.report, msg)
+		c.addReport(msg)
 		c.log.Error(msg)
 		return
 	}
@@ -368,7 +409,7 @@ func (c *cmafIngester) start(ctx context.Context) {
 		err := c.sendMediaSegments(ctx, nextSegNr, int(availabilityTime), isLast)
 		if err != nil {
 			msg := fmt.Sprintf("Error sending media segments: %v", err)
-			c.report = append(c.report, msg)
+			c.addReport(msg)
 			c.log.Error(msg)
 			return
 		}
@@ -376,7 +417,7 @@ func (c *cmafIngester) start(ctx context.Context) {
 		availabilityTime, err = calcSegmentAvailabilityTime(c.asset, refRep, uint32(nextSegNr), c.cfg)
 		if err != nil {
 			msg := fmt.Sprintf("Error calculating segment availability time: %v", err)
-			c.report = append(c.report, msg)
+			c.addReport(msg)
 			c.log.Error(msg)
 			return
 		}
@@ -389,12 +430,12 @@ func (c *cmafIngester) start(ctx context.Context) {
 			deltaTime := time.Duration(availabilityTime-int64(nowMS)) * time.Millisecond
 			for deltaTime <= 0 {
 				msg := fmt.Sprintf("Segment availability time in the past: %d", availabilityTime)
-				c.report = append(c.report, msg)
+				c.addReport(msg)
 				c.log.Error(msg)
 				err := c.sendMediaSegments(ctx, nextSegNr, int(availabilityTime), false /* isLast */)
 				if err != nil {
 					msg := fmt.Sprintf("Error sending media segments: %v", err)
-					c.report = append(c.report, msg)
+					c.addReport(msg)
 					c.log.Error(msg)
 					return
 				}
@@ -402,7 +443,7 @@ func (c *cmafIngester) start(ctx context.Context) {
 				availabilityTime, err = calcSegmentAvailabilityTime(c.asset, refRep, uint32(nextSegNr), c.cfg)
 				if err != nil {
 					msg := fmt.Sprintf("Error calculating segment availability time: %v", err)
-					c.report = append(c.report, msg)
+					c.addReport(msg)
 					c.log.Error(msg)
 					return
 				}
